@@ -111,7 +111,7 @@ PATHS = [None, '.', 'bin', './bin', '/opt/x', '~/vm', '~', 'a/../b', 'bin/', '/'
 
 
 def gen_config(rng, for_sessions=False, allow_malformed=True, braces=None, env_tilde=True, parens=True,
-               scalars=True):
+               scalars=True, multi_exec=None):
     """one raw configuration (a dict as `load_config` would produce it) plus the
     generator's own knowledge about it (for the oracle)."""
     if braces is None:
@@ -224,36 +224,73 @@ def gen_config(rng, for_sessions=False, allow_malformed=True, braces=None, env_t
                 env[k] = env[k].replace('~', 'T')
         return env
 
+    # a second executor that runs the same suite, with another path (or none): a suite without a
+    # location of its own runs in the path of the executor it is executed with
+    if multi_exec is None:
+        multi_exec = rng.random() < 0.35
+    executor2 = None
+    if multi_exec:
+        executor2 = {'executable': rng.choice(['exe2', 'vm-%(cores)s', 'run.sh'])}
+        p2 = rng.choice([p_ for p_ in PATHS if p_ != executor.get('path')])
+        if p2 is not None:
+            executor2['path'] = p2
+        if for_sessions:
+            # the scripted Popen must be able to tell the executors apart
+            executor['args'] = 'x0x' + (' ' + executor['args'] if executor.get('args') else '')
+            executor2['args'] = 'x1x' + (' ' + text(2) if rng.random() < 0.4 else '')
+        elif rng.random() < 0.5:
+            executor2['args'] = text(3)
+
     # `env` on several levels (runs < experiment < executor < suite < benchmark): the effective map
     # of a run is the one of the most specific level that has the key, replaced as a whole (C02)
     experiment = {}
-    shared_levels = [runs_cfg, experiment, executor, suite]
     p_level = rng.choice([0.0, 0.3, 0.3, 0.6])
-    shared_env = {}
-    for lvl in shared_levels:
+    for lvl in [runs_cfg, experiment, executor, suite] + ([executor2] if executor2 is not None else []):
         if rng.random() < p_level:
             lvl['env'] = gen_env()
-            shared_env = lvl['env']
+
+    def chain(ex):
+        eff = {}
+        for lvl in (runs_cfg, experiment, ex, suite):
+            if 'env' in lvl:
+                eff = lvl['env']
+        return eff
     for name, d in bench_dicts.items():
-        eff = shared_env
         if rng.random() < 0.25:
             d['env'] = gen_env()
-            eff = d['env']
             for i, b in enumerate(benchmarks):
                 if b == name:
                     benchmarks[i] = {name: d}
-        bench_info[name]['env'] = copy.deepcopy(eff)
-    env = shared_env
+    env = chain(executor)
     ex_name = rng.choice(['E', 'E-1', 'Exé', 'E%%', 'E.2'])
     su_name = rng.choice(['S', 'S_2', 'Sé', 'S%', 'Suite'])
-    cfg = {'default_experiment': 'T', 'default_data_file': 't.data', 'runs': runs_cfg,
-           'benchmark_suites': {su_name: suite}, 'executors': {ex_name: executor},
-           'experiments': {'T': dict(experiment, suites=[su_name], executions=[ex_name])}}
+    executors = {ex_name: executor}
+    experiments = {'T': dict(experiment, suites=[su_name], executions=[ex_name])}
+    default_experiment = 'T'
+    if executor2 is not None:
+        ex2_name = ex_name + rng.choice(['b', '-2', 'ß'])
+        executors[ex2_name] = executor2
+        if rng.random() < 0.5:
+            experiments['T']['executions'] = [ex_name, ex2_name] if rng.random() < 0.7 else [ex2_name, ex_name]
+        else:
+            # several experiments of one configuration share the suite
+            experiments['T2'] = dict(experiment, suites=[su_name], executions=[ex2_name])
+            default_experiment = 'all'
+    cfg = {'default_experiment': default_experiment, 'default_data_file': 't.data', 'runs': runs_cfg,
+           'benchmark_suites': {su_name: suite}, 'executors': executors, 'experiments': experiments}
+    env_by, ex_info = {}, {}
+    for nm, ex in executors.items():
+        ex_info[nm] = {'path': ex.get('path'), 'executable': ex['executable'], 'args': ex.get('args')}
+        env_by[nm] = dict((b, copy.deepcopy(bench_dicts[b]['env'] if 'env' in bench_dicts[b] else chain(ex)))
+                          for b in bench_info)
+    for b in bench_info:
+        bench_info[b]['env'] = copy.deepcopy(env_by[ex_name][b])
     info = {'bench': bench_info, 'executor': ex_name, 'suite': su_name, 'iterations': iterations,
             'warmup': warmup, 'env': copy.deepcopy(env) or {}, 'invocations': invocations,
             'path': executor.get('path'), 'executable': executor['executable'], 'args': executor.get('args'),
             'command': suite['command'], 'has_location': 'location' in suite,
-            'location': suite.get('location'), 'dims': copy.deepcopy(dims), 'kinds': sorted(kinds)}
+            'location': suite.get('location'), 'dims': copy.deepcopy(dims), 'kinds': sorted(kinds),
+            'executors': ex_info, 'env_by': env_by}
     return cfg, info
 
 
@@ -304,8 +341,20 @@ def run_key(run):
     return (run.benchmark.name, run.cores, run.input_size, run.var_value, run.tag)
 
 
+def ex_of(info, run):
+    """the generator's knowledge about the executor of a run"""
+    name = run.benchmark.suite.executor.name
+    ex = (info.get('executors') or {}).get(name)
+    if ex is not None:
+        return dict(ex, name=name)
+    return {'name': info['executor'], 'path': info['path'], 'executable': info['executable'], 'args': info['args']}
+
+
 def env_of(info, run):
     """the effective env map of a run according to the generator (most specific level wins)"""
+    by = info.get('env_by')
+    if by is not None:
+        return by[run.benchmark.suite.executor.name][run.benchmark.name]
     b = info['bench'][run.benchmark.name]
     return b['env'] if 'env' in b else info['env']
 
@@ -316,10 +365,11 @@ def model_run(info, run):
     b = info['bench'][run.benchmark.name]
     return {'bench': b['command'], 'cores': val_json(run.cores), 'input': val_json(run.input_size),
             'variable': val_json(run.var_value), 'tag': val_json(run.tag),
-            'executor': info['executor'], 'suite': info['suite'],
+            'executor': ex_of(info, run)['name'], 'suite': info['suite'],
             'iterations': val_json(1 if info['iterations'] is None else info['iterations']),
             'warmup': val_json(info['warmup']),
-            'path': info['path'], 'executable': info['executable'], 'args': info['args'],
+            'path': ex_of(info, run)['path'], 'executable': ex_of(info, run)['executable'],
+            'args': ex_of(info, run)['args'],
             'command': info['command'], 'extra_args': b['extra_args'],
             'has_location': info['has_location'], 'location': info['location'],
             'env': [[k, v] for k, v in env_of(info, run).items()], 'invocations': info['invocations']}
@@ -404,7 +454,7 @@ def spec_values(info, run, invocation, documented_defaults=True):
     if warm is None and documented_defaults:
         warm = 0          # docs/config.md: "warmup … Default: `0`"
     iters = 1 if info['iterations'] is None else info['iterations']
-    return {'benchmark': b['command'], 'cores': s(run.cores), 'executor': info['executor'],
+    return {'benchmark': b['command'], 'cores': s(run.cores), 'executor': ex_of(info, run)['name'],
             'input': s(run.input_size), 'iterations': str(iters), 'invocation': str(invocation),
             'suite': info['suite'], 'variable': s(run.var_value), 'tag': s(run.tag), 'warmup': str(warm)}
 
@@ -421,11 +471,12 @@ def spec_path(cwd, p):
 def spec_template(info, run, cwd):
     b = info['bench'][run.benchmark.name]
     parts = []
-    path = spec_path(cwd, info['path'])
-    exe = (path + '/' if path else '') + info['executable']
+    ex = ex_of(info, run)
+    path = spec_path(cwd, ex['path'])
+    exe = (path + '/' if path else '') + ex['executable']
     parts.append(exe)
-    if info['args']:
-        parts.append(info['args'])
+    if ex['args']:
+        parts.append(ex['args'])
     parts.append(info['command'])
     if b['extra_args']:
         parts.append(b['extra_args'])
@@ -440,7 +491,8 @@ def spec_launch(info, run, invocation, cwd, home, users):
     if text is None:
         return None
     argv = [spec_tilde(w, home, users) for w in text.split(' ') if w]
-    loc = info['location'] if info['has_location'] else info['path']
+    # the suite's location, else the path of the executor the run is executed with
+    loc = info['location'] if info['has_location'] else ex_of(info, run)['path']
     wd = spec_path(cwd, loc)
     if wd:
         v1 = dict(values)
@@ -535,7 +587,10 @@ def apply_adapter(cfg, info, adapter, wd):
             p['record_args'] = adapter['record_args']
         if adapter['report_args'] is not None:
             p['report_args'] = adapter['report_args']
-        cfg['executors'][info['executor']]['profiler'] = {'perf': p}
+        for ex in cfg['executors'].values():
+            ex['profiler'] = {'perf': dict(p)}
+        for exp in cfg['experiments'].values():
+            exp['action'] = 'profile'
     elif adapter['name'] == 'custom':
         with open(os.path.join(wd, 'my_adapter.py'), 'w') as f:
             f.write(CUSTOM_ADAPTER)
